@@ -140,10 +140,16 @@ class hid:
             self._reconnect_task = asyncio.create_task(self._reconnect())
             return False
         self._reconnect_count = 0
-        self._initialise_device()
         self._log.debug("hid opened %s", path[0])
         asyncio.get_running_loop().add_reader(self._f, self._reader)
         self.connection_status_callback._invoke("connected")
+        try:
+            self._initialise_device()
+        except OSError:
+            # The device went away again before it could be initialised
+            self._log.debug("fail on initialisation, disconnecting")
+            self.disconnect(reconnect=True)
+            return False
         return True
 
     async def _reconnect(self):
@@ -638,8 +644,12 @@ class tridonic(hid):
             if not self.firmware_version:
                 self.firmware_version = f"{data[3]}.{data[4]}"
                 # Now read the serial number
-                os.write(self._f, self._cmd(
-                    tridonic._CMD_INIT, tridonic._CMD_INIT_READSERIAL))
+                try:
+                    os.write(self._f, self._cmd(
+                        tridonic._CMD_INIT, tridonic._CMD_INIT_READSERIAL))
+                except OSError:
+                    self._log.debug("fail on initialisation, disconnecting")
+                    self.disconnect(reconnect=True)
             elif not self.serial:
                 self.serial = _hex(data[1:5])
                 self.connected.set()
